@@ -330,7 +330,9 @@ func (u *MySQLInsertUndoLogBuilder) parsePkValuesFromStatement(insertStmt *ast.I
 					for i := range row {
 						r := row[i]
 						rStr, ok := r.(string)
-						if i < pkIndex && ok && !strings.EqualFold(rStr, SqlPlaceholder) {
+						// every value before the key that is not a placeholder: a string literal or, as the
+						// parser delivers numbers, a value of another type
+						if i < pkIndex && !(ok && strings.EqualFold(rStr, SqlPlaceholder)) {
 							currentRowNotPlaceholderNumBeforePkIndex++
 						}
 					}
